@@ -21,7 +21,15 @@ var (
 	errCompute   = errors.New("verif: compute function failed")
 )
 
+// compactZero selects the second codec flavour of the TypedValue histories: the value 0 is encoded as the empty byte
+// string (a legal encoding that carries no bytes), everything else as 8 bytes. Only TestTypedValueFaultEnumeration sets
+// it (per case, from a drawn bool) and resets it when the case ends; tests of one binary run one after the other.
+var compactZero bool
+
 func encodeInt(v int) []byte {
+	if compactZero && v == 0 {
+		return []byte{}
+	}
 	var b [8]byte
 	binary.BigEndian.PutUint64(b[:], uint64(int64(v)))
 
@@ -29,6 +37,9 @@ func encodeInt(v int) []byte {
 }
 
 func decodeInt(b []byte) (int, error) {
+	if compactZero && len(b) == 0 {
+		return 0, nil
+	}
 	if len(b) != 8 {
 		return 0, errMalformed
 	}
@@ -57,7 +68,7 @@ func intDecoder(in *injector) kvstore.BytesToObject[int] {
 			return 0, 0, err
 		}
 
-		return v, 8, nil
+		return v, len(b), nil
 	}
 }
 
@@ -94,7 +105,7 @@ func genTVHistory(t *rapid.T) []tvStep {
 	for i := 0; i < n; i++ {
 		s := tvStep{Kind: rapid.SampledFrom(kinds).Draw(t, "kind")}
 		if s.Kind == "set" || s.Kind == "add" {
-			s.V = rapid.IntRange(-3, 1000).Draw(t, "v")
+			s.V = rapid.OneOf(rapid.Just(0), rapid.IntRange(-3, 3), rapid.IntRange(-3, 1000)).Draw(t, "v")
 		}
 		steps = append(steps, s)
 	}
@@ -394,8 +405,13 @@ func judgeTV(t fataler, steps []tvStep, probe bool, failAt []int, o tvOutcome) {
 }
 
 func TestTypedValueFaultEnumeration(t *testing.T) {
-	stats.Rule(checkTV, "rapid draws a history of <=25 steps (Get/Has/Set/Delete/Compute{add,abort with ErrTypedValueNotChanged,fail}/reopen) on TypedValue[int] over faultkv(mapdb) with countable codecs; it is run fault free (P = number of codec+store calls), then re-run for every position 1..P with exactly that call failing, once continuing the history and once with Get+Has probes right after the failed step, plus 3 drawn double faults. After every step the raw store must hold exactly the encoding of the last successfully written value. Case = (history, failing positions, probe). Non-trivial = an injected failure was reached, or a Compute aborted with NotChanged after a value was cached")
+	stats.Rule(checkTV, "rapid draws a history of <=25 steps (Get/Has/Set/Delete/Compute{add,abort with ErrTypedValueNotChanged,fail}/reopen) on TypedValue[int] over faultkv(mapdb) with countable codecs (two flavours: 8 bytes per value, or 0 encoded as the empty byte string); it is run fault free (P = number of codec+store calls), then re-run for every position 1..P with exactly that call failing, once continuing the history and once with Get+Has probes right after the failed step, plus 3 drawn double faults. After every step the raw store must hold exactly the encoding of the last successfully written value. Case = (history, failing positions, probe). Non-trivial = an injected failure was reached, or a Compute aborted with NotChanged after a value was cached")
 	rapid.Check(t, func(rt *rapid.T) {
+		compactZero = rapid.Bool().Draw(rt, "codecEncodesZeroAsEmpty")
+		defer func() { compactZero = false }()
+		if compactZero {
+			stats.Label(checkTV, "codec:zero_as_empty_bytes")
+		}
 		steps := genTVHistory(rt)
 		base := runTV(steps, false)
 		judgeTV(rt, steps, false, nil, base)
